@@ -88,12 +88,24 @@ Lemma chain_nonempty par revs del : revs <> [] -> chain par revs del <> [].
 Proof. revert par; induction revs as [|x r IH]; [congruence|]. intros par _. destruct r; cbn; discriminate. Qed.
 
 (* the revisions added by one attempt are never empty *)
-Lemma push_check_add ac t hist del nr : push_check ac t hist del = PAdd nr -> nr <> [].
+Lemma push_check_add ac skip t hist del nr : push_check ac skip t hist del = PAdd nr -> nr <> [].
 Proof.
   unfold push_check. destruct (split_known t hist []) as [news par]. destruct news as [|x r]; [discriminate|].
-  destruct (illegal_conflict _ _ _ _ _); [discriminate|]. destruct (gens_ok _ _); [|discriminate].
+  destruct (negb skip && illegal_conflict _ _ _ _ _); [discriminate|]. destruct (gens_ok _ _); [|discriminate].
   intros H; inv H. destruct r; cbn; discriminate.
 Qed.
+
+(* a pushed revision's plan that adds something is push_check's, whatever the options *)
+Lemma push_plan_add_inv ac o t nr : push_plan ac o t = Some (PAdd nr) ->
+  push_check (ac && negb (o_noconf (w_opt o))) (o_force (w_opt o) && tree_tombstoned t) t (w_push o) (w_deleted o) = PAdd nr.
+Proof.
+  unfold push_plan. destruct (push_check _ _ _ _ _) as [| | |nr']; try discriminate.
+  - destruct (o_resolver (w_opt o)); discriminate.
+  - intros H; inv H. reflexivity.
+Qed.
+
+Lemma push_plan_add ac o t nr : push_plan ac o t = Some (PAdd nr) -> nr <> [].
+Proof. intros H. apply push_plan_add_inv in H. eapply push_check_add; eauto. Qed.
 
 Lemma init_inv ops : Inv (init_world ops).
 Proof.
@@ -230,7 +242,7 @@ Section Fixed.
         { subst plan. unfold plan_of in Eplan. destruct (w_push (w_op w)) eqn:Epush.
           - destruct (put_check _ _ _ _); [|discriminate]. destruct (dig_lookup _ _); [|discriminate].
             destruct (has_rev _ _); inv Eplan. discriminate.
-          - inv Eplan. eapply push_check_add; eauto. }
+          - eapply push_plan_add; eauto. }
         match goal with |- Inv {| st := _; last := ?l; released := released s ++ []; ws := set_nth i ?w' _; commits := _ |} =>
           replace (released s ++ []) with (released s ++ ([] : list N)) by reflexivity;
           apply (inv_update s i w w' [] extra l I Hn) end.
